@@ -1438,7 +1438,11 @@ class Engine:
             for f in facts:
                 s2.assume(f)
             self.oblige(s2, 'pre@%s#%s@L%d' % (key.strip('.'), r, node.lineno), t, kind='call-precondition')
-            st.assume(t)
+            # once proved, the precondition is known on this path — as a quantified fact, not as its Skolem instance
+            t_a, facts_a = self.spec(r, st, bound, mode='assume')
+            for f in facts_a:
+                st.assume(f)
+            st.assume(t_a)
         guard = z3.And(*pre_terms) if pre_terms else TRUE
         tt = t_or(*[v.taint for v in bound.values()])
         if cc.get('returns_public'):
@@ -1450,8 +1454,9 @@ class Engine:
                 st.ghost[g] = self.fresh(g + '_after_' + key.strip('.'), st.ghost[g].sort())
         rty = cc.get('returns', 'obj:')
         if cc.get('pure'):
-            sorts = [V] * len(names)
-            argv = [self.to_V(bound[n]) if n in bound else z3.Const('absent', V) for n in names]
+            pnames = (['self'] if 'self' in bound else []) + list(names)      # the receiver is an argument too
+            sorts = [V] * len(pnames)
+            argv = [self.to_V(bound[n]) if n in bound else z3.Const('absent', V) for n in pnames]
             rs = {'real': R, 'npreal': R, 'int': I, 'bool': B}.get(rty, V)
             term = self.uf('fn_' + key.strip('.'), *(sorts + [rs]))(*argv)
             if rs == R:
@@ -1474,6 +1479,8 @@ class Engine:
         else:
             res = self.typed(rty, 'ret_%s!%d' % (key.strip('.'), self.counter + 1), taint=tt)
             self.counter += 1
+        if 'bind' in cc:
+            cc['bind'](self, st, bound, res, node)        # structural facts about the result (e.g. which object its field is)
         ex = dict(bound)
         ex.update(pre_ghost)
         ex['result'] = res
